@@ -10,6 +10,7 @@ LAX_TEXT = ("Lax tier of Engine S: the real (VecKind-concrete) lax code runs nat
             "label comparison the code makes is decided by the solver and the final obligation is an SMT query over the labels. Node "
             "identifiers are concrete usize in the library, so the wirings of each shape are enumerated exhaustively (not solver-decided) — "
             "stated in the evidence as `enumerated_choices`.")
+K_TEXT = ("Engine K: Kani 0.68 / CBMC 6.11 proof harnesses over the compiled crate: array contents are kani::any(), lengths and count-like arguments concrete per harness, unwinding assertions on, every harness carries a cover witness; a failed harness is a counterexample over the real compiled code. Engine S complements it through the public array traits.")
 NOTE = ("Bounded by the shape box in coverage.bounds. Trusted: the SymKind model of a contract-conforming array backend (re-validated natively "
         "against VecKind on every explored path), z3 for unsat answers (sat answers are replayed).")
 checks = {
@@ -19,6 +20,7 @@ checks = {
  "C04": ("S", "dagger laws, spider accept/reject with symbolic codomains, spider fusion vs cospan composite, identities and symmetries are spiders; lax half (lax tier): lax identity/twist/singleton/spider/half_spider data, dagger, fusion through strictification"),
  "C05": ("S", "checked constructors on raw 64-bit data accept iff documented conditions; Err variants name a failing condition; results well-formed and typed"),
  "C06": ("S", "finite-function operations vs functions-as-term-vectors; coequalizer minimality via an independent closure; universal map iff constant on fibres"),
+ "C07": ("SK", "Engine K: Kani proof harnesses of every VecArray primitive against scalar specifications (all contents of arrays of length 0..3, unwinding assertions on); Engine S: the same contract through the array traits at both backends, one native VecKind run per order/equality pattern of the inputs"),
  "C08": ("S", "segmented-array operations vs list-of-lists decoding and the size invariant; real iterator next/len/size_hint"),
  "C10": ("L", "conversions: round trips exact, to_strict panics iff label conflict and otherwise is the quotient; lax compose defined iff types match (unchecked iff arities), results glue the strict meanings; strictification commutes with ; (x) dagger (both sides by the real code, up to iso); in-place tensor/append/coproduct equal the pure forms as data"),
  "C11": ("L", "every builder call from an arbitrary state vs a list model: returned identifiers, resulting fields, deletion witness, rejection of out-of-range identifiers (serde clause not covered)"),
@@ -34,7 +36,6 @@ checks = {
  "C20": ("S", "the obligations of C01/C04/C06/C12/C14/C15/C16/C17/C18 with argsort tie order, component numbering, key order and scatter filler chosen adversarially by the solver"),
 }
 NA = {
- "C07": "Kani harnesses of the Vec primitives not built yet in this session (planned: DESIGN.md C07)",
 }
 import sys
 if len(sys.argv) > 1:
@@ -49,15 +50,15 @@ for pid in sorted(checks):
         "evidence_file": f"evidence/{pid}.json",
         "replay_cmd_template": "./vf replay {path}",
         "engine": {"S": "S", "L": "S (lax tier)", "K": "K", "SK": "S+K"}[eng],
-        "level_claimed": {"category": "model_checking", "text": (LAX_TEXT if eng == "L" else S_TEXT) + " Oracle: " + what + ".", "design_ref": f"DESIGN.md section 4 ({pid}), 3.1-3.2, 3.6" + (", 3.8" if eng == "L" else "")},
+        "level_claimed": {"category": "model_checking", "text": (LAX_TEXT if eng == "L" else (K_TEXT if eng == "SK" else S_TEXT)) + " Oracle: " + what + ".", "design_ref": f"DESIGN.md section 4 ({pid}), 3.1-3.2, 3.6" + (", 3.8" if eng == "L" else "")},
         "level_note": NOTE,
-        "technique": ("symbolic execution of the real lax code with symbolic labels + SMT (z3); node-identifier wirings enumerated exhaustively" if eng == "L" else "symbolic execution of the real generic code over a symbolic array backend + SMT (z3 QF_BV); counterexamples replayed natively"),
+        "technique": ("bounded model checking of the compiled Vec backend with Kani/CBMC (SAT) against scalar specs; plus symbolic execution through the array traits with native VecKind replays per input pattern" if eng == "SK" else "symbolic execution of the real lax code with symbolic labels + SMT (z3); node-identifier wirings enumerated exhaustively" if eng == "L" else "symbolic execution of the real generic code over a symbolic array backend + SMT (z3 QF_BV); counterexamples replayed natively"),
     })
 na = [{"property_id": p["id"], "reason": NA[p["id"]]} for p in props if p["id"] not in checks]
 m = {"version": 1,
      "setup_cmd": "./vf setup",
-     "hooks": {"guard": "verif-hooks", "enable": "cargo feature `verif-hooks` of open-hypergraphs (no hook is needed by the checks built so far; Engine S and all native replays build /repo with the guard off)", "baseline_off_cmd": "cd /repo && cargo test --workspace --no-fail-fast --offline", "source_commits": [], "add_only": True},
-     "engines": [{"name": "S", "path": "symk/", "serves_properties": sorted(checks), "kind_free_text": "symbolic ArrayKind backend + re-execution path explorer + SMT-LIB pipe to z3; runs the real generic library code over bit-vector terms; lax tier runs the real lax code with symbolic labels"}],
+     "hooks": {"guard": "verif-hooks", "enable": "cargo feature `verif-hooks` of open-hypergraphs, switched on only by the Kani harness crate (kani/Cargo.toml path dependency); Engine S and all native replays build /repo with the guard off", "baseline_off_cmd": "cd /repo && cargo test --workspace --no-fail-fast --offline", "source_commits": ["4b2de11"], "add_only": True},
+     "engines": [{"name": "K", "path": "kani/", "serves_properties": ["C07"], "kind_free_text": "Kani proof harness crate with a path dependency on /repo (feature verif-hooks on: association-list stand-in for std HashMap)"}, {"name": "S", "path": "symk/", "serves_properties": sorted(checks), "kind_free_text": "symbolic ArrayKind backend + re-execution path explorer + SMT-LIB pipe to z3; runs the real generic library code over bit-vector terms; lax tier runs the real lax code with symbolic labels"}],
      "checks": out_checks,
      "not_applicable": na,
      "notes": "see DESIGN.md; known_findings.json lists the genuine defects found (all repaired with fix: commits in /repo)"}
